@@ -136,8 +136,31 @@ def gen_cases(ctx):
 
 
 def run(ctx):
-    ctx.prove(["PvModel.Props.C04"])
+    ctx.prove(["PvModel.Props.C04", "PvModel.Props.T04"])
     run_suite(ctx, "C04")
+    termination_probe(ctx)
+
+
+def termination_probe(ctx):
+    """`optimize()` always terminates: the theorem assumes each step returns; the `while` inventory (T04) names the one loop of the
+    package without a termination argument, `helpers.get_partner_index`, which spins forever for `num_elements = 1`. The probe runs the
+    smallest configurations of every class that calls it (and of every class with a `while` in its own module) under a watchdog."""
+    from .. import trace, optimizers
+    facts = getattr(ctx, "facts", {})
+    users = sorted({a["cls"] for a in facts.get("algos", []) if a.get("whileLoops")} | {"BeeColonyOptimization"})
+    js = []
+    for name in users:
+        if name not in optimizers.names():
+            continue
+        for ps in (2, 3, 4):
+            js.append({"name": name, "kind": "cont-sym", "specs": [{"k": "contMulti", "lbs": [-5.0, -5.0], "ubs": [5.0, 5.0]}], "objective": "sphere", "minmax": "min", "seed": 1,
+                       "cfg": {"max_cycles": 2, "fitness_error": None, "population_size": ps}, "mode": "serial", "trace": False, "timeout": 5})
+    for r in pmap(trace.run_traced, js):
+        j = r["job"]
+        e = r.get("exception") or {}
+        ctx.case(("termination-probe", j["name"], j["cfg"]["population_size"]), kind=f"termination-probe:{'timeout' if e.get('type') == 'RunTimeout' else 'returned-or-raised'}")
+        if e.get("type") == "RunTimeout":
+            ctx.fail(f"C04/{j['name']}/optimize-does-not-terminate/{e.get('func')}", f"population_size={j['cfg']['population_size']}: still running after 5 s (max_cycles = 2)", "S-trace", {"job": j})
 
 
 def run_suite(ctx, prop):
@@ -167,6 +190,11 @@ def run_suite(ctx, prop):
 def replay(case):
     import json
     c = case["case"]
+    if "job" in c:
+        from .. import trace
+        r = trace.run_traced(dict(c["job"], timeout=10))
+        print(json.dumps({"job": c["job"], "outcome": r.get("exception") or "returned"}, indent=1, default=str))
+        return 1 if (r.get("exception") or {}).get("type") == "RunTimeout" else 0
     c["es"] = tuple(c["es"]) if c.get("es") else None
     c["gens"] = [[tuple(a) for a in g] for g in c["gens"]]
     req, impl, problems = run_impl(c)
